@@ -61,6 +61,9 @@ pub trait DynPk {
     fn verify(&self, msg: &[u8], sig: &[u8], ctx: &[u8], mode: Mode) -> bool;
     fn to_bytes(&self) -> Vec<u8>;
     fn dup(&self) -> Box<dyn DynPk>;
+    /// the deprecated internal verification interface (message taken as already formatted)
+    fn verify_internal(&self, m_prime: &[u8], sig: &[u8], ctx: &[u8]) -> bool;
+    fn dup_via_clone_from(&self) -> Box<dyn DynPk>;
 }
 
 pub trait DynSk {
@@ -72,6 +75,10 @@ pub trait DynSk {
     fn dup(&self) -> Box<dyn DynSk>;
     /// the deprecated internal interface: signs the already formatted message M' as is
     fn sign_internal(&self, m_prime: &[u8], rnd: [u8; 32]) -> Result<Vec<u8>, &'static str>;
+    /// the same with a context argument (which the internal interface only length-checks)
+    fn sign_internal_ctx(&self, m_prime: &[u8], ctx: &[u8], rnd: [u8; 32]) -> Result<Vec<u8>, &'static str>;
+    /// a replica obtained with Clone::clone_from into an existing key object of another key pair
+    fn dup_via_clone_from(&self) -> Box<dyn DynSk>;
 }
 
 pub type KeyPair = (Box<dyn DynPk>, Box<dyn DynSk>);
@@ -242,6 +249,16 @@ macro_rules! set_impl {
                 }
                 fn to_bytes(&self) -> Vec<u8> { self.0.clone().into_bytes().to_vec() }
                 fn dup(&self) -> Box<dyn DynPk> { Box::new(Pk(self.0.clone())) }
+                #[allow(deprecated)]
+                fn verify_internal(&self, m_prime: &[u8], sig: &[u8], ctx: &[u8]) -> bool {
+                    let sig: [u8; m::SIG_LEN] = sig.try_into().expect("harness: signature length");
+                    m::_internal_verify(&self.0, m_prime, &sig, ctx)
+                }
+                fn dup_via_clone_from(&self) -> Box<dyn DynPk> {
+                    let mut other = KG::keygen_from_seed(&[0xC1u8; 32]).0;
+                    other.clone_from(&self.0);
+                    Box::new(Pk(other))
+                }
             }
 
             impl DynSk for Sk {
@@ -273,6 +290,15 @@ macro_rules! set_impl {
                 #[allow(deprecated)]
                 fn sign_internal(&self, m_prime: &[u8], rnd: [u8; 32]) -> Result<Vec<u8>, &'static str> {
                     m::_internal_sign(&self.0, m_prime, &[], rnd).map(|s| s.to_vec())
+                }
+                #[allow(deprecated)]
+                fn sign_internal_ctx(&self, m_prime: &[u8], ctx: &[u8], rnd: [u8; 32]) -> Result<Vec<u8>, &'static str> {
+                    m::_internal_sign(&self.0, m_prime, ctx, rnd).map(|s| s.to_vec())
+                }
+                fn dup_via_clone_from(&self) -> Box<dyn DynSk> {
+                    let mut other = KG::keygen_from_seed(&[0xC1u8; 32]).1;
+                    other.clone_from(&self.0);
+                    Box::new(Sk(other))
                 }
             }
 
